@@ -1,0 +1,34 @@
+//! Verification hooks. Only compiled with the `verif` cargo feature.
+//! `point(name)` calls a process-global, replaceable callback; the external
+//! harness installs a cooperative scheduler here to inject interleavings.
+use std::sync::atomic::{AtomicBool, Ordering};
+use std::sync::{Arc, RwLock};
+
+pub type PointCallback = Arc<dyn Fn(&'static str) + Send + Sync + 'static>;
+
+lazy_static! {
+    static ref CALLBACK: RwLock<Option<PointCallback>> = RwLock::new(None);
+}
+static ENABLED: AtomicBool = AtomicBool::new(false);
+
+pub fn set_callback(cb: Option<PointCallback>) {
+    let enabled = cb.is_some();
+    if let Ok(mut guard) = CALLBACK.write() {
+        *guard = cb;
+    }
+    ENABLED.store(enabled, Ordering::SeqCst);
+}
+
+#[inline]
+pub fn point(name: &'static str) {
+    if !ENABLED.load(Ordering::Relaxed) {
+        return;
+    }
+    let cb = match CALLBACK.read() {
+        Ok(guard) => guard.clone(),
+        Err(_) => None,
+    };
+    if let Some(cb) = cb {
+        cb(name);
+    }
+}
